@@ -4,7 +4,7 @@ Every check calls ensure(variant); objects are cached under
 /verif/.build/<hash of SRC+CBLAS+flags>/<variant>/ so an unchanged tree is
 compiled once and an edited tree is always recompiled.
 """
-import hashlib, os, subprocess, sys, shutil, glob, time, threading
+import fcntl, hashlib, os, subprocess, sys, shutil, glob, time, threading
 _LOCK = threading.RLock()
 from concurrent.futures import ThreadPoolExecutor
 
@@ -61,9 +61,28 @@ def _prune_old(keep):
         shutil.rmtree(os.path.join(BUILD, d), ignore_errors=True)
 
 
+class _flock:
+    """inter-process lock: two checks started together must not build the same tree twice (re-entrant per process)"""
+    depth = 0
+    fh = None
+
+    def __enter__(self):
+        if _flock.depth == 0:
+            os.makedirs(BUILD, exist_ok=True)
+            _flock.fh = open(os.path.join(BUILD, ".lock"), "w")
+            fcntl.flock(_flock.fh, fcntl.LOCK_EX)
+        _flock.depth += 1
+
+    def __exit__(self, *a):
+        _flock.depth -= 1
+        if _flock.depth == 0:
+            fcntl.flock(_flock.fh, fcntl.LOCK_UN)
+            _flock.fh.close()
+
+
 def ensure(variant="verif", quiet=True):
     """Return (libpath, cc, cflags list for harness compilation)."""
-    with _LOCK:
+    with _LOCK, _flock():
         return _ensure(variant, quiet)
 
 
@@ -109,7 +128,7 @@ def _ensure(variant, quiet):
 
 def harness(name, sources, variant="verif", defines=(), extra_link=(), wrap=()):
     """Compile and link a harness program against the given library variant."""
-    with _LOCK:
+    with _LOCK, _flock():
         return _harness(name, sources, variant, defines, extra_link, wrap)
 
 
